@@ -7,6 +7,7 @@ explicitly modelled Go panic sites are reachable only through the known findings
 import KlogV.Lemmas.Totality
 import KlogV.Lemmas.ReportTotal
 import KlogV.Lemmas.Prettify
+import KlogV.Props.C06b
 namespace KlogV.C06
 
 /-- Shape of the parser's result: records with one text block per record and no errors, or no
